@@ -1,3 +1,4 @@
+import DaskModel.Generated.FusedKeyRenamer
 /-
 K7 (part 5): the name `dask.optimization.default_fused_keys_renamer` gives to a fused chain — the part that matters for
 keeping the fused tasks of one graph apart.
@@ -46,5 +47,18 @@ def enforceLimit (keep : Option Nat) (cut : Nat) (digest : List Char → List Ch
   match keep with
   | none => name
   | some t => if name.length > t then name.take cut ++ '-' :: digest name else name
+
+open Dask.Generated.FusedKeyRenamer in
+/-- `default_fused_keys_renamer(..., max_fused_key_length=m)`'s use of `_enforce_max_key_limit`, with the constants the
+    extractor reads from the source (`slack`, `room`): `m` is `None`/`0` → no limit; `m -= slack`; a limit of exactly `0`
+    is falsy again → no limit; a negative limit is exceeded by every name and nothing of the name is kept. -/
+def renamerLimit (m : Option Nat) (digest : List Char → List Char) (name : List Char) : List Char :=
+  match m with
+  | none => name
+  | some 0 => name
+  | some m =>
+    if m = slack then name
+    else if m < slack then '-' :: digest name
+    else enforceLimit (some (m - slack)) (m - slack - room) digest name
 
 end Dask.FusedName
